@@ -155,7 +155,10 @@ def gen_cases(rng, tier):
     # names starting with characters that mean something elsewhere (a '*' marks deleted entries on some DOS tools): reported by create AND by list/extract
     for is_fd in (True, False):
         cases.append({"medium": "disk", "is_fd": is_fd, "verbose": is_fd, "sources": [f("*star.txt", 700), f("plain.dat", 300), f("?q.bas", 10), f(",c.bin", 2041)], "add": [f("*two.dat", 5)]})
-    return cases, {"random": n, "fixed": 12}
+    # extensions of 4..8 characters: refused by create/add, hence absent from every later report as well
+    for is_fd in (True, False):
+        cases.append({"medium": "disk", "is_fd": is_fd, "verbose": not is_fd, "sources": [f("first.bas", 11), f("notes.text", 300), f("second.txt", 5), f("page.html", 1), f("t.extensio", 2)], "add": [f("table.data", 7), f("z.txt", 1)]})
+    return cases, {"random": n, "fixed": 14}
 
 
 def run_case(case, ctx):
